@@ -12,7 +12,7 @@ from wire import hx, unhx, opt  # noqa: E402
 tbot.log.VERBOSITY = -1
 KIND = "own"
 SPECS = ["C07"]
-THEOREMS = ["C07.placeholder"]
+THEOREMS = ["C07.step_ok", "C07.run_refines", "C07.c07"]
 QUICK_N, THOROUGH_N = 6000, 100000
 QUICK_BUDGET, THOROUGH_BUDGET = 40, 900
 CASE_WALL = 20
